@@ -148,6 +148,57 @@ func runC15(c *Ctx, r *Report) {
 			fmt.Sprintf("after this lookup fails control can reach %s: an unknown bound is silently ignored instead of reported", bad[o]))
 	}
 
+	// R-C15.6: with an upper bound option the start set never falls back to the heads
+	r.Doc("R-C15.6", "on a path where an upper-bound option (LT/LTE) was seen, the start set handed to the traversal is never (re)assigned from the log's heads")
+	headsField := p.Field("", "IPFSLog", "heads")
+	ltF, lteF := p.Field("iface", "IteratorOptions", "LT"), p.Field("iface", "IteratorOptions", "LTE")
+	bf := &Flow{P: p, Fn: it, May: true, Entry: Facts{}}
+	bf.Edge = func(cond ast.Expr, taken bool, f Facts) {
+		for _, a := range splitCond(cond, taken) {
+			if x, isNil, ok := nilTest(a); ok && !isNil {
+				if v, _ := p.FieldSel(it, x); v == ltF || v == lteF {
+					f["boundGiven"] = true
+				}
+			}
+		}
+	}
+	bf.Run()
+	nhs := 0
+	bf.Visit(func(_ *cfgBlk, n ast.Node, before Facts) {
+		walkNoLit(n, func(nd ast.Node) bool {
+			as, ok := nd.(*ast.AssignStmt)
+			if !ok {
+				return true
+			}
+			for i, l := range as.Lhs {
+				id, ok := ast.Unparen(l).(*ast.Ident)
+				if !ok || i >= len(as.Rhs) {
+					continue
+				}
+				if sl, ok := p.TypeOf(it, id).Underlying().(*types.Slice); !ok || !isNamed(sl.Elem(), p.pkgPath("iface"), "IPFSLogEntry") {
+					continue
+				}
+				mentionsHeads := false
+				ast.Inspect(as.Rhs[i], func(m ast.Node) bool {
+					if e, ok := m.(ast.Expr); ok {
+						if v, _ := p.FieldSel(it, e); v == headsField {
+							mentionsHeads = true
+						}
+					}
+					return true
+				})
+				if !mentionsHeads {
+					continue
+				}
+				nhs++
+				r.Check(!before["boundGiven"], "R-C15.6", r.Key("R-C15.6", it, "start-from-heads", id.Name), as.Pos(),
+					"the start set is taken from the heads only before/without an upper-bound option", "the start set is (re)assigned from the log's heads on a path where an LT/LTE bound was given: a bound that selects nothing (exclusive bound at a root entry, empty list) silently iterates the whole log instead")
+			}
+			return true
+		})
+	})
+	r.Floor("R-C15.6", "assignments of the start set from the heads", nhs, 1)
+
 	r.Doc("R-C15.5", "the traversal stops taking entries once it reached the lower-bound hash")
 	endHashStops(c, r, "R-C15.5")
 
